@@ -1148,6 +1148,10 @@ def run_c18(ctx):
     rules += [_R("AtMost", LEAF("p"), LEAF("q"), v=2, id="T1"), _R("AtLeast", LEAF("p"), LEAF("r"), v=0, s=1, id="T2"),   # rules that always hold
               _R("AtMost", LEAF("a"), LEAF("b"), v=3)]
     rules += [LEAF("p"), LEAF("c"), LEAF("X")]            # bare items as "rules": a new one, one that is a top-level item already, one named like a rule
+    if q:                                                   # the quick tier keeps one representative of each kind of rule
+        drop = [json.dumps(x, sort_keys=True) for x in (_R("Any", LEAF("p"), LEAF("r"), id="c"), _R("AtLeast", LEAF("p"), LEAF("r"), v=0, s=1, id="T2"),
+                                                        _R("AtMost", LEAF("a"), LEAF("b"), v=3), LEAF("X"))]
+        rules = [x for x in rules if json.dumps(x, sort_keys=True) not in drop]
     states = api_histories(ctx, "API_add", pairs, ["add", "cfg_poly", "select"], 3, rules)
     cases = history_cases(ctx, states, [cat["CfgD"], cat["CfgG"], CfgN, CfgI, CfgA])
     cases = [c for c in cases if any(x["op"] == "add" for x in c["calls"])]
